@@ -29,6 +29,10 @@ def gen_partial_wordlist(rng):
                     if i:
                         toks.append('+')
                     toks += ipa2tokens(m)
+                    if rng.random() < 0.25:
+                        toks.append(rng.choice(['⁵⁵', '²¹', '³⁵']))   # a tone, also inside a morpheme that goes on: not a morpheme border
+                        if rng.random() < 0.5:
+                            toks += ipa2tokens(wlgen.gen_word(rng, 1))
                 d[idx] = [l, c, ''.join(ms), toks]
                 idx += rng.choice([1, 1, 2, 5])
     if len(d) < 4:
@@ -103,7 +107,9 @@ def run(chk):
         t = rng.choice([0.2, 0.35, 0.45, 0.55, 0.75, 1.0])
         pp = rng.random() < 0.5
         try:
-            part = Partial(d)
+            # the constructor's split_on_tones only concerns the slices kept for the partial scorer; partial_cluster is called with its
+            # default (morphemes are delimited by '+' only)
+            part = Partial(d, split_on_tones=True) if rng.random() < 0.3 else Partial(d)
             mats = []
             orig = part._get_partial_matrices
 
@@ -213,8 +219,6 @@ def run(chk):
                 bad.append(('pglue', d, pids, model))
     drv.close()
     chk.sample({'partial_ids': {str(k): v for k, v in list(pids.items())[:6]}}, limit=2)
-    chk.tested_not_proved.append('networkx connected_components is not modelled: every observed labelling (loose ids per concept, post-processed partial ids '
-                                 'per concept) is checked by the Lean certificate checker, whose soundness is proved (compOk_sound)')
     chk.obligation('correspondence:observed loose ids and post-processed partial ids are accepted by the Lean certificate checkers looseOkb / ppOkb '
                    '(hypotheses of C16_loose_of_observed / C16_pp_unique)', 'correspondence', not bad_cert,
                    'concepts checked: loose=%d post-processing=%d rejected=%d %s' % (ncert['loose'], ncert['pp'], len(bad_cert), str(bad_cert[0])[:300] if bad_cert else ''))
